@@ -81,7 +81,10 @@ func twinOracle(mode string) (prop, oracle string) {
 func RunMode(prop, tier string, seed uint64, worker, run int, mode string) *RunResult {
 	r := RunStream(seed, prop, tier, worker, run)
 	prof := ProfileFor(prop, tier, r)
-	if mode == "twin:singles" || mode == "twin:unsafe" || mode == "twin:reset" {
+	if mode != "" {
+		// Callback actions that change observer registration make the set of firings
+		// depend on the iteration order of a batch, which legitimately differs between
+		// twin worlds; twin runs use passive callbacks only.
 		prof.CbActions = []int{CbNothing, CbRead, CbQuery, CbGC}
 	}
 	cfg := DrawConfig(r, prof, Tiny())
